@@ -192,6 +192,13 @@ class StmtMixin:
     def do_yield(self, st: State, v: V, node):
         if st.out is None:
             raise Unsupported("yield outside generator unit", node)
+        if self.inline_depth == 0 and self.c.yield_asserts:
+            env = dict(st.env)
+            env["yielded"] = v
+            env["OUT"] = st.out
+            for lab, txt in self.c.yield_asserts.items():
+                g = self.spec_goal(txt, env, st, self.entry_state)
+                self.oblige(st, "yield", lab, g, node, note=txt)
         nf = self.no_frame
         self.no_frame = True
         try:
